@@ -21,9 +21,19 @@ KEYS = ['a', 'b', 'c']
 CALLS = collections.Counter()
 
 
+PAYLOAD = {'big': False}
+
+
+def value(i):
+    v = {'i': i, 'tag': f'value-{i}'}
+    if PAYLOAD['big']:
+        v['blob'] = chr(65 + i) * 40000       # diskcache keeps values of 32 KiB and more in separate files
+    return v
+
+
 def upstream(i):
     CALLS[i] += 1
-    return {'i': i, 'tag': f'value-{i}'}
+    return value(i)
 
 
 def pipeline():
@@ -109,7 +119,7 @@ def run_lifecycle(hist, max_handles=3):
                 if sorted(got_all) != idxs:
                     return (n, ev, f'iteration yielded {len(got_all)} examples'), m, False
                 for i in idxs:
-                    if got_all[i] != {'i': i, 'tag': f'value-{i}'}:
+                    if got_all[i] != value(i):
                         return (n, ev, f'example {i} read as {got_all[i]}'), m, False
                     if i in m.stored and CALLS[i] != before[i]:
                         return (n, ev, f'example {i} was stored before but upstream ran again'), m, False
@@ -152,7 +162,8 @@ def run_lifecycle(hist, max_handles=3):
 
 
 def lifecycle_task(args):
-    first, depth = args
+    first, depth, big = args
+    PAYLOAD['big'] = big
     st = collections.Counter()
     viols = {}
     evs = lifecycle_events(3)
@@ -171,8 +182,8 @@ def lifecycle_task(args):
             n, ev, what = prob
             key = f'lifecycle/{ev[0]}/' + what.split(':')[0].split(' raised')[0][:60].replace(' ', '-')
             if key not in viols:
-                viols[key] = common.Violation('C11', key, f'history {hist}: {what}',
-                                              {'engine': 'histmc', 'history': [list(e) for e in hist]}).to_json()
+                viols[key] = common.Violation('C11', key + ('/large-examples' if big else ''), f'history {hist}: {what}',
+                                              {'engine': 'histmc', 'history': [list(e) for e in hist], 'big': big}).to_json()
             continue
         st['states'] += 1
         if len(hist) < depth:
@@ -268,7 +279,8 @@ def run(tier):
     firsts = [('open', r, c) for r in (False, True) for c in (False, True)]
     total = collections.Counter()
     canon = 0
-    for st, viols, nseen in common.pmap(lifecycle_task, [(f, depth) for f in firsts]):
+    for st, viols, nseen in common.pmap(lifecycle_task, [(f, depth, False) for f in firsts] +
+                                        [(f, depth - 1, True) for f in firsts]):
         total.update(st)
         canon += nseen
         res.violations.extend(common.Violation.from_json(v) for v in viols)
@@ -320,6 +332,7 @@ def replay(data):
     res = common.Result()
     if r['engine'] == 'histmc':
         hist = [tuple(e) for e in r['history']]
+        PAYLOAD['big'] = bool(r.get('big'))
         prob, m, pruned = run_lifecycle(hist)
         if prob is not None:
             n, ev, what = prob
